@@ -1,4 +1,5 @@
 import UmProofs.BrokerScaleQuota
+import UmProofs.BrokerOrdered
 /-!
 # C10 — `add_cluster` creates a balanced cluster (`create_slots` arithmetic)
 -/
@@ -87,6 +88,15 @@ theorem generateFreeChunks_length {s : Store} {proxyNum : Nat} {choice : List (S
   simp only [List.length_nil, Nat.zero_add] at this
   rw [this, hlen']
 
+/-- the number of chunks handed out, in either mode (`proxyNum` is even for every caller) -/
+theorem allocChunks_length {s : Store} {proxyNum first : Nat} {choice : List (String × String)}
+    {arr : List (ProxyRes × ProxyRes)} (h : allocChunks s proxyNum first choice = R.ok arr) :
+    arr.length = (proxyNum + 1) / 2 := by
+  rcases Ord.allocChunks_cases h with ⟨_, h⟩ | ⟨_, h⟩
+  · exact generateFreeChunks_length h
+  · obtain ⟨hev, hl, _⟩ := Ord.generateFreeChunksOrdered_ok h
+    omega
+
 theorem tagProxies_clusters {s s2 : Store} {addrs : List String} {name : String}
     (h : tagProxies s addrs name = R.ok s2) : s2.clusters = s.clusters := by
   unfold tagProxies at h
@@ -118,6 +128,8 @@ theorem addCluster_balanced {s s' : Store} {name : String} {nodeNum : Nat} {cfg 
   unfold addCluster at h
   split at h
   · cases h
+  split at h
+  · cases h
   · split at h
     · cases h
     · rename_i hnew
@@ -140,7 +152,7 @@ theorem addCluster_balanced {s s' : Store} {name : String} {nodeNum : Nat} {cfg 
                 split at hdo
                 · rename_i s2 htag
                   cases hdo
-                  have hlen := generateFreeChunks_length harr
+                  have hlen := allocChunks_length harr
                   have hmod' : nodeNum % 4 = 0 := by simpa using hmod
                   have hpn' : nodeNum / 2 ≠ 0 := by simpa using hpn
                   have harrlen : arr.length * 4 = nodeNum := by omega
